@@ -12,8 +12,9 @@ RULE = ('seeded random programs in which add_* / assignment calls of every kind 
         'dataset name, unsupported cast dtype, non-array data, bad frame channel lists) before and between valid calls of the same '
         'name; a rejected add_origin (with and without explicit reference) as the first origin call, objects around it, then the defining origin; compared with the history without the rejected calls. Distinct by (program index, number of rejected calls).')
 ASSUMPTIONS = []
-PARTIAL = ('failed WRITES: the model shows which mutations a failed write leaves (derived attributes, merged data); the clause '
-           '"once the cause is removed the same file as a fresh specification" is exercised by correspondence only')
+PARTIAL = ('failed WRITES: the clause "once the cause is removed the same file as a fresh specification" is checked by differential '
+           'execution (K-failed-write: 5 causes of failure, retry vs fresh specification), not proved: the model shows which mutations a '
+           'failed write leaves')
 
 
 def without_rejected(prog, outs):
@@ -108,6 +109,75 @@ def run(ctx):
         if k % 11 == 0:
             ctx.sample({'stream': 'K-reject', 'rejected_calls': nrej,
                         'rejected': [(s['op'], s.get('type'), o[1]) for s, o in zip(prog, r['outs']) if o[0] == 'err'][:6]})
+    failed_write_histories(ctx)
+
+
+def failed_write_histories(ctx):
+    """The last clause: a write that raises leaves the specification able to produce, once the cause is removed, the same file as a
+    fresh specification. Causes: missing data set, data sets of different lengths, a row window outside the data, non-uniform index in
+    the high-compatibility mode, signed integer data in that mode. The retry must give byte for byte the file of a fresh specification."""
+    import numpy as np
+    import impl
+    from dliswriter import DLISFile
+    from dliswriter.utils.high_compatibility_mode import high_compatibility_mode
+    rng = ctx.rng('failed-writes')
+
+    def spec(indexed, second_frame):
+        df = DLISFile()
+        lf = df.add_logical_file()
+        lf.add_origin('ORIGIN', file_set_number=1, creation_time='2020/01/01 00:00:00')
+        a = lf.add_channel('DEPTH', units='m')
+        b = lf.add_channel('VALUE')
+        lf.add_frame('MAIN', channels=[a, b], index_type='BOREHOLE-DEPTH' if indexed else None)
+        if second_frame:
+            c = lf.add_channel('OTHER')
+            lf.add_frame('SECOND', channels=[c])
+        return df
+
+    for k in range(24 if ctx.tier == 'quick' else 240):
+        cause = rng.choice(['missing', 'lengths', 'window', 'hc_nonuniform', 'hc_signed', 'hc_nonuniform'])
+        indexed = cause == 'hc_nonuniform' or rng.random() < 0.5
+        second = rng.random() < 0.5
+        hc = cause.startswith('hc_')
+        n = rng.randrange(3, 8)
+        lo = rng.randrange(0, 50)
+        good = {'DEPTH': np.arange(lo, lo + n, dtype=np.float64), 'VALUE': np.arange(n, dtype=np.float32) * 0.5, 'OTHER': np.arange(n + 2, dtype=np.uint16)}
+        bad = dict(good)
+        kw_bad, kw_good = {}, {}
+        if cause == 'missing':
+            bad.pop(rng.choice(['VALUE', 'OTHER'] if second else ['VALUE']))
+        elif cause == 'lengths':
+            bad['VALUE'] = np.arange(n + 3, dtype=np.float32)
+        elif cause == 'window':
+            kw_bad = {'from_idx': n + 5}
+        elif cause == 'hc_nonuniform':
+            d = np.arange(lo, lo + n, dtype=np.float64)
+            d[1] += 0.4                              # monotonic, same first and last value, not uniform
+            bad['DEPTH'] = d
+        elif cause == 'hc_signed':
+            bad['VALUE'] = np.arange(n, dtype=np.int16)
+
+        def go(df, data, kw):
+            if hc:
+                with high_compatibility_mode():
+                    return impl.outcome(lambda: impl.write_real(df, data=data, **kw))
+            return impl.outcome(lambda: impl.write_real(df, data=data, **kw))
+        df = spec(indexed, second)
+        o1 = go(df, bad, kw_bad)
+        ctx.count('K-failed-write', key=(k, cause, indexed, second))
+        ctx.stat('K-failed-write', 'cause_' + cause)
+        det = {'cause': cause, 'indexed': indexed, 'second_frame': second, 'rows': n}
+        if o1[0] == 'ok':
+            ctx.stat('K-failed-write', 'first_write_did_not_fail')
+            continue
+        o2 = go(df, good, kw_good)
+        of = go(spec(indexed, second), good, kw_good)
+        if o2[0] != of[0] or (o2[0] == 'ok' and o2[1]['file'] != of[1]['file']):
+            a, b = (o2[1]['file'] if o2[0] == 'ok' else b''), (of[1]['file'] if of[0] == 'ok' else b'')
+            pos = next((j for j in range(min(len(a), len(b))) if a[j] != b[j]), min(len(a), len(b)))
+            ctx.violation('retry-after-a-failed-write-differs-from-fresh-specification',
+                          {**det, 'first_write': o1, 'retry': o2[0] if o2[0] == 'ok' else o2, 'fresh': of[0] if of[0] == 'ok' else of,
+                           'first_difference_at': pos, 'retry_around': a[max(0, pos - 16):pos + 32].hex(), 'fresh_around': b[max(0, pos - 16):pos + 32].hex()})
 
 
 def replay(ctx, data):
